@@ -49,8 +49,12 @@ pub fn obl_velocity_calc(s: &mut Src, ctx: &mut Ctx, st_fixed: u8, part: u8) {
     let ns_raw = if part == 1 { 305 } else { s.u16() & 0x3ff };
     let vr_sign = s.bool();
     let vr_raw = if part == 1 { 17 } else { s.u16() & 0x1ff };
-    let ret_a = if part == 0 { -0.6 } else { s.f64() };
-    let ret_h = if part == 0 { 370.0 } else { s.f64() };
+    // part >= 10: the conversion part with a CONCRETE ghost result (bounded sample of atan2 values;
+    // the symbolic version, part 1, needs ~9 minutes of float reasoning and runs in the thorough tier)
+    const SAMPLES: [f64; 8] = [-3.141592653589793, -2.5, -1.0, -1e-4, -0.6, -0.0002446183, -3.0e-4, -1.5707963267948966];
+    let ret_a = if part == 0 { -0.6 } else if part >= 10 { SAMPLES[(part - 10) as usize % 8] } else { s.f64() };
+    let ret_h = if part == 0 { 370.0 } else if part >= 10 { 1234.5 } else { s.f64() };
+    let part = if part >= 10 { 1 } else { part };
     let sg = |b: bool| if b { Sign::Negative } else { Sign::Positive };
     let sub_type = if st == 1 || st == 2 {
         AirborneVelocitySubType::GroundSpeedDecoding(GroundSpeedDecoding { ew_sign: sg(ew_dir), ew_vel: ew_raw, ns_sign: sg(ns_dir), ns_vel: ns_raw })
